@@ -677,3 +677,20 @@ func TestD33_CardinalityInRangeBeyondTheUniverse(t *testing.T) {
 		t.Fatalf("CardinalityInRange(2^32+2, 2^33) = %d, want 0", n)
 	}
 }
+
+// #34 C13: Freeze / FrozenView of the empty bitmap must not convert a pointer into a 4-byte buffer
+// to *uint64. Only visible with checkptr: run this test with -race (it passes vacuously without).
+func TestD34_FreezeEmptyUnderCheckptr(t *testing.T) {
+	block := make([]byte, 16)
+	buf := block[12:16:16]
+	if _, err := roaring.New().FreezeTo(buf); err != nil {
+		t.Fatal(err)
+	}
+	v := roaring.New()
+	if err := v.FrozenView(buf); err != nil {
+		t.Fatal(err)
+	}
+	if !v.IsEmpty() {
+		t.Fatal("view of the frozen empty bitmap is not empty")
+	}
+}
